@@ -455,11 +455,12 @@ static void FuncLD(TempResult* pResult, TempResult const* pArgs, unsigned ArgCnt
 }
 
 static void FuncASINH(TempResult* pResult, TempResult const* pArgs, unsigned ArgCnt) {
-    UNUSED(ArgCnt);
+    /* asinh is odd; for negative arguments x + sqrt(x*x+1) cancels (asinh(-1e8) was -inf) */
+    Double Arg    = fabs(pArgs[0].Contents.Float);
+    Double Result = log(Arg + sqrt(Arg * Arg + 1));
 
-    as_tempres_set_float(
-            pResult, log(pArgs[0].Contents.Float
-                         + sqrt(pArgs[0].Contents.Float * pArgs[0].Contents.Float + 1)));
+    UNUSED(ArgCnt);
+    as_tempres_set_float(pResult, (pArgs[0].Contents.Float < 0) ? -Result : Result);
 }
 
 static void FuncACOSH(TempResult* pResult, TempResult const* pArgs, unsigned ArgCnt) {
